@@ -219,10 +219,90 @@ def r3_unwrap(F, R, M):
     R.count('unwrap_sites_examined', n)
 
 
+def r4_accessors(F, R, dma, rule):
+    """The owner's accessors hand out exactly the region it owns: the pointer accessor yields base + offset only for
+    offset < pages*PAGE_SIZE (else panics), the whole-region slice is (base, pages*PAGE_SIZE), the physical-address
+    accessor is the stored physical address."""
+    fields = {f['name']: f['ty'] for f in F.adts[dma]['variants'][0]['fields']}
+    pgf = [n for n, t in fields.items() if t == 'usize']
+    n = 0
+    for b in F.bodies.values():
+        if b.get('impl_adt') != dma or 'impl_trait' in b or not F.handwritten(b) or b['kind'] != 'AssocFn' or 'NonNull<' not in b.get('sig', '').split('->')[-1]:
+            continue
+        if not b.get('sig', '').split('(')[1].startswith("&"):
+            continue
+        sg = supergraph(F, b['id'])
+        where = fn_site(F, b['id'])
+        try:
+            paths = PathEnum(sg).run()
+        except PathLimit:
+            continue
+        n += 1
+        is_slice = '[u8]' in b['sig'].split('->')[-1]
+        BASE = 0x7000_0000
+        bad = None
+        rows = 0
+        for pages in (1, 2, 5):
+            for off in ((0,) if is_slice else (0, 1, 4095, 4096, pages * 4096 - 1, pages * 4096, pages * 4096 + 1)):
+                def leaf(t, pages=pages, off=off):
+                    if t[0] in ('load0', 'load') and t[1][2] and t[1][2][-1][0] == 'f' and t[1][2][-1][2] == dma:
+                        if t[1][2][-1][1] in pgf:
+                            return pages
+                        return BASE
+                    if t == ('param', 2):
+                        return off
+                    if t[0] == 'discr' and t[1][0] == 'call' and t[1][2].endswith('NonNull::<T>::new'):
+                        return 1
+                    raise Unfoldable(fmt(t)[:70])
+                fo = Folder(leaf)
+                try:
+                    hit = [p for p in paths if path_holds(fo, p)]
+                    if len(hit) != 1:
+                        bad = 'pages=%d offset=%d: %d feasible paths' % (pages, off, len(hit))
+                        break
+                    p = hit[0]
+                    rows += 1
+                    inside = off < pages * 4096
+                    if p.panicked:
+                        if inside:
+                            bad = 'pages=%d offset=%d: panics for an offset inside the region' % (pages, off)
+                            break
+                        continue
+                    if not inside:
+                        bad = 'pages=%d offset=%d: returns a pointer for an offset outside the region' % (pages, off)
+                        break
+                    news = [e for e in p.effects if e[0] == 'call' and e[2].endswith('NonNull::<T>::new')]
+                    if is_slice:
+                        sl = [e for e in p.effects if e[0] == 'call' and 'slice_from_raw_parts' in e[2]]
+                        ptr = fo.ev(news[0][3][0]) if news else None
+                        ln = fo.ev(sl[0][3][1]) if sl else None
+                        if ptr != BASE or ln != pages * 4096:
+                            bad = 'whole-region slice of a %d-page region at %#x is (%s, %s bytes), expected (%#x, %d)' % (
+                                pages, BASE, hex(ptr) if ptr is not None else None, ln, BASE, pages * 4096)
+                            break
+                    else:
+                        ptr = fo.ev(news[-1][3][0]) if news else None
+                        if ptr != BASE + off:
+                            bad = 'pointer at offset %d of a region at %#x is %s' % (off, BASE, hex(ptr) if ptr is not None else None)
+                            break
+                except Unfoldable as e:
+                    bad = 'unfoldable: %s' % e
+                    break
+            if bad:
+                break
+        R.tables += rows
+        if bad and bad.startswith('unfoldable'):
+            R.abstain(rule, 'accessor:%s' % b['name'], bad, where)
+            continue
+        R.check(bad is None, rule, 'accessor:%s' % b['name'], where, 'hands out exactly the owned region (%d rows)' % rows, 'DMA owner accessor: %s' % bad)
+    R.count('owner_accessors', n)
+
+
 def r4_raii(F, R, M, rule='R4'):
     dma = M.dma_adt
     if not dma:
         raise Undecided('DMA owner type not found')
+    r4_accessors(F, R, dma, rule)
     from .C01 import field_writers
     fields = [f['name'] for f in F.adts[dma]['variants'][0]['fields']]
     ctors = set()
